@@ -410,6 +410,17 @@ def check_stable_solve(run, A):
     # fast path: the whole stack is tried first
     first = [e for e in g.events if e.kind == 'call' and call_parts(e.term)[0] == 'numpy.linalg.solve' and not e.loops]
     run.check(bool(first), 'LOOP', 'stable_solve: batched solve is tried first', fn.loc(), '', 'no batched np.linalg.solve outside the loop', construct=f'LOOP::{q}::fast-path')
+    # ... and what it returns is what the function returns: a cast to the dtype of an operand (`.astype(B.dtype)`) rounds a double-precision solution to the
+    # precision of a single-precision right-hand side, or drops the imaginary part of a complex solution for a real one
+    casts = []
+    for r_ in ret_alts(g):
+        for x in walk_terms(r_, into_mu=False):
+            if call_parts(x)[0] == 'method:astype' or (is_call_to(x, 'numpy.asarray', 'numpy.array') and (len(call_parts(x)[1]) > 1 or 'dtype' in call_parts(x)[2])):
+                if any(call_parts(y)[0] in ('numpy.linalg.solve', 'numpy.linalg.lstsq') for y in walk_terms(x, into_mu=False)):
+                    casts.append(x)
+    run.check(not casts, 'LOOP', 'stable_solve: the solution is returned in the precision the solver computed it in', fn.loc(casts[0].node if casts else None), '',
+              'the result of the solver is cast to another dtype before it is returned: precision (or the imaginary part) of the solution depends on the dtype of an operand',
+              construct=f'LOOP::{q}::result-cast')
 
 
 def check_explicit_reference(run, A):
